@@ -173,6 +173,37 @@ def build_sampled(c, cls=None):
     return cls(build_binning(c["binning"]), np.array(c["data"], dtype=float), np.array(c["samples"], dtype=float))
 
 
+# how the object under test reached the caller: freshly constructed, restored from a file,
+# received from another process (pickle), a full-range selection, or a copy.  The statements
+# about containers hold for all of them alike.
+PROVENANCE = [None, None, None, None, "hdf5", "hdf5", "pickle", "slice", "copy"]
+
+
+def via(obj, how):
+    """returns ``obj`` as it arrives by way ``how`` (see PROVENANCE)"""
+    if how is None:
+        return obj
+    if how == "pickle":
+        import pickle
+
+        return pickle.loads(pickle.dumps(obj))
+    if how == "copy":
+        import copy
+
+        return copy.deepcopy(obj)
+    if how == "slice":
+        return obj.bins[:]
+    if how == "hdf5":
+        import os
+        import tempfile
+
+        with tempfile.TemporaryDirectory(dir="/dev/shm" if os.path.isdir("/dev/shm") else None) as d:
+            path = os.path.join(d, "obj.hdf5")
+            obj.to_file(path)
+            return type(obj).from_file(path)
+    raise ValueError(how)
+
+
 # --------------------------------------------------------------------------
 # configurations and sky scenes for the end-to-end pipeline checks
 # --------------------------------------------------------------------------
@@ -195,11 +226,14 @@ zmin_strategy = st.one_of(
 
 
 @st.composite
-def binning_params(draw, max_bins=4, methods=("linear", "comoving", "logspace", "custom")):
-    """parameters of the redshift binning part of Configuration.create"""
+def binning_params(draw, max_bins=4, methods=("linear", "comoving", "logspace", "custom"), many_bins=False):
+    """parameters of the redshift binning part of Configuration.create; with ``many_bins``
+    hundreds of bins (around the widths where 8-bit bin indices would wrap)"""
+    if many_bins:
+        methods = [m for m in methods if m != "custom"]
     method = draw(st.sampled_from(methods))
     closed = draw(closed_strategy)
-    nb = draw(st.integers(1, max_bins))
+    nb = draw(st.sampled_from([127, 128, 129, 255, 256, 257, 300])) if many_bins else draw(st.integers(1, max_bins))
     zmin = draw(zmin_strategy)
     if method != "comoving" and draw(st.integers(0, 19)) == 0:
         zmin = 0.0  # boundary (and falsy) value; comoving binning from z=0 is rejected by astropy
